@@ -629,10 +629,11 @@ INVALID_BODIES = {
     "too_few_macro_arguments": "~two_args(1);",
     "too_few_macro_arguments_for_an_unused_parameter": "~second_unused(1);",
     "no_macro_argument_for_an_unused_parameter": "~only_unused();",
+    "too_few_macro_arguments_hidden_by_a_repeated_parameter_name": "~dup_params(1);",
     "syntax_error": "a(;",
 }
 TWO_ARGS = ("macro two_args($a, $b) {\n    x($a, $b);\n}\nmacro second_unused($a, $b) {\n    x($a);\n}\n"
-            "macro only_unused($a) {\n    x(30);\n}\n")
+            "macro only_unused($a) {\n    x(30);\n}\nmacro dup_params($x, $x) {\n    f($x);\n}\n")
 # helper macros of the label-scope entries: `owner` defines a label, `jumper` jumps to a label that only its caller defines
 LABEL_MACROS = "macro owner() {\n    @owned;\n    o();\n}\n"
 JUMPER_MACRO = "macro jumper() {\n    jump @in_body;\n}\n"
@@ -802,6 +803,11 @@ def c10_worlds(rng: random.Random) -> list[dict]:
         "huge_routine_id_gap": "def 0 {\n    a();\n    end;\n}\ndef 300 {\n    b();\n    end;\n}\n",
         "ssbscript_negative_routine_id": "//?: is-ssb-script: true\ndef -1 {\n    a();\n}\n",
         "ssbscript_routine_id_twice": "//?: is-ssb-script: true\ndef 0 {\n    a();\n}\ndef 0 {\n    b();\n}\n",
+        "astronomic_routine_id": "def 999999999999999999999999999999 {\n    a();\n    end;\n}\n",
+        "routine_id_65536": "def 65536 {\n    a();\n    end;\n}\n",
+        "ssbscript_astronomic_routine_id": "//?: is-ssb-script: true\ndef 99999999999999999999 {\n    a();\n}\n",
+        "blocks_nested_1200_deep": "def 0 {\n" + "forever {\n" * 1200 + "a();\n" + "}\n" * 1200 + "end;\n}\n",
+        "ifs_nested_700_deep": "def 0 {\n" + "if (debug) {\n" * 700 + "a();\n" + "}\n" * 700 + "end;\n}\n",
         "decimal_routine_target": "def 0 for actor 1.5 {\n    a();\n    end;\n}\n",
         "alias_as_first_routine": "def 0 {\n    alias previous;\n}\n",
         "macro_holding_only_a_label": "macro lbl() {\n    @l;\n}\ndef 0 {\n    ~lbl();\n    end;\n}\n",
@@ -826,6 +832,9 @@ def c10_worlds(rng: random.Random) -> list[dict]:
     # programs marked as SsbScript take another path through compile() (dispatch on the meta attribute)
     MK = "//?: is-ssb-script: true\n"
     W("ssbscript_syntax_error", {M: MK + "def 0 {\n    a(;\n}\n"})
+    W("ssbscript_syntax_error_in_routine_header", {M: MK + "def 0 for_actor() {\n    a();\n}\n"})
+    W("ssbscript_syntax_error_in_argument_list", {M: MK + 'def 0 for actor(3) {\n    a(1, "x", @l);\n    @l;\n    b(Position<"m", 1.5, 2>, {def="a"}, 1.5, $v C);\n}\n'})
+    W("ssbscript_syntax_error_in_imported_file", {M: 'import "./d1.exps";\n' + VALID_MAIN, "/proj/SCRIPT/d1.exps": MK + "def 0 for_actor() {\n    a();\n}\n"})
     W("ssbscript_jump_to_undefined_label", {M: MK + "def 0 {\n    a();\n    Jump(@nowhere);\n}\n"})
     W("ssbscript_inline_context", {M: MK + "def 0 {\n    a<actor 1>();\n    End();\n}\n"})
     W("ssbscript_valid", {M: MK + "def 0 {\n    @l;\n    a(1, 'x');\n    Jump(@l);\n}\n"}, expect="accept")
